@@ -396,6 +396,37 @@ func init() {
 				}
 			}
 		}
+		c.Rule("C28f 'no unblocked provider left' is decided from the unblocked list only: in getValidProviderAddresses the ignored-providers set is looked up only with elements of getValidAddresses(...) as the key (the recount of ignored providers that really occupy a slot of the valid list), and the function never reads csm.pairing, which still contains the providers blocked in this epoch — counting against it reports the list empty, and sends the relay to a blocked provider, while an unblocked one remains")
+		if gvp := c.Fn(csmK + "getValidProviderAddresses"); gvp != nil {
+			nLook, bad := 0, ""
+			var at ssa.Instruction
+			ir.EachInstr(gvp, func(in ssa.Instruction) {
+				switch x := in.(type) {
+				case *ssa.Lookup:
+					if p, ok := x.X.(*ssa.Parameter); ok && len(gvp.Params) > 3 && p == gvp.Params[3] {
+						nLook++
+						at = in
+						if !strings.HasPrefix(ir.Desc(x.Index), "call("+csmK+"getValidAddresses)(") {
+							bad = "the ignored-providers set is looked up with " + trunc(ir.Desc(x.Index), 100) + ", not with an address of the unblocked list"
+							at = in
+						}
+					}
+				case *ssa.FieldAddr:
+					if ir.FieldKey(x) == csmK+"pairing" {
+						bad = "getValidProviderAddresses reads csm.pairing, which includes the providers blocked in this epoch"
+						at = in
+					}
+				}
+			})
+			switch {
+			case bad != "":
+				c.Fail("C28f/getValidProviderAddresses/empty-verdict-from-unblocked-list-only", c.P.InstrPos(at), bad)
+			case nLook == 0:
+				c.Fail("C28f/getValidProviderAddresses/empty-verdict-from-unblocked-list-only", c.P.Pos(gvp.Pos()), "the ignored providers are no longer matched against the unblocked list before the list is declared empty")
+			default:
+				c.OK("C28f/getValidProviderAddresses/empty-verdict-from-unblocked-list-only", c.P.InstrPos(at), itoa(nLook)+" lookup(s) of valid addresses in the ignored set; csm.pairing untouched")
+			}
+		}
 		c.Note("C28/cross-reference/UsedComputeUnits-atomic-read", "-", "UsedComputeUnits is written under the provider mutex but read with atomic.LoadUint64 without it (atomicReadUsedComputeUnits): a data race by the Go memory model, harmless on 64-bit targets; not part of the property")
 		c.NotCovered("blocked-provider preference; accounting equalities over all schedules; QoS bookkeeping")
 	})
